@@ -89,6 +89,18 @@ var All = []*Prop{
 		NotCovered: "surrogate handling and lone-surrogate preservation (trim/case mapping/normalize go through utf16.Decode), case mapping tables, that StrictEquals/hash/CompareTo are right given the normal form, equality of two unscanned imported strings with invalid UTF-8",
 	},
 	{
+		ID:    "C07",
+		Rules: []*core.Rule{rules.FreshArray, rules.StaleLen, rules.SpareCap, rules.SortBound, rules.LenWritable, rules.OverrideClosure},
+		Explanation: "Clauses decided (necessary conditions, not the behaviour): (1) 'generic vs fast paths inside methods': R-FRESH-ARRAY runs the guard-freshness dataflow over every function that obtains a *arrayObject from checkStdArray*/checkStdArrayObj*: each read of .values (and of an element or sub-slice of a snapshot loaded from it) must be reached only by paths on which no call that may run script (species constructors, callbacks, Proxy traps, valueOf/toString, getters) happened since the check - otherwise the fast path reads a stale dense snapshot where the generic algorithm re-reads through [[Get]]. " +
+			"R-STALELEN is the same dataflow on integers: an index or slice bound into the snapshot that is computed from the toLength(...) result read at the start of the method needs, on every path, either no script-running call since that read or an equality test of the old length against the array's current length/len(values) (otherwise a shrunk array is indexed out of range: a Go panic escaping to the host). R-SORTBOUND: the in-place sort of Go-backed arrays compares every index with the current sortLen() before sortGet/swap (the comparator runs between accesses). " +
+			"(2) 'switching storage strategy / bookkeeping counters': R-SPARECAP also requires every function that removes elements from .values (in-place shrink or nil store) to update objCount, because checkStdArrayObj takes objCount == length == len(values) as proof of density and an over-count lets a holey array pass. R-SPARECAP classifies every store to arrayObject.values (fresh, same, grow-under-cap-check, shrink) and requires each in-place shrink to nil the slots it cuts off, which the grow-into-capacity sites (expand, unshift, splice) rely on. " +
+			"(3) 'defineProperty on length': R-LENWRITABLE - in defineArrayLength every path from the storage's length-setter call to a return reads descr.Writable (ArraySetLength defers writable:false past a blocked truncation, never drops it). " +
+			"(4) every array storage kind (arrayObject, sparseArrayObject, objectGoSlice, objectGoArrayReflect, objectGoSliceReflect, dynamicArray) overrides the complete index-aware method set (R-OVERRIDECLOSURE), so no baseObject string-key implementation is reached for an index key.",
+		Technique:  "guard-freshness dataflow (forward must-analysis over SSA with inter-procedural summaries and a may-run-script call-graph fact); store classification with dominance/loop-header discharge; must-pass-through on the SSA CFG; method-set override closure",
+		DesignRef:  "DESIGN.md section 4, C07",
+		NotCovered: "index arithmetic inside the fast paths once the length is validated, the sort algorithm (stability, permutation), the arithmetic of ArraySetLength with non-configurable tails, sparse<->dense transition heuristics and the contents they carry over, agreement of each generic algorithm with the specification text",
+	},
+	{
 		ID:    "C18",
 		Rules: []*core.Rule{rules.MapEncaps, rules.KeyNorm, rules.LazyScan, rules.NumBirth},
 		Explanation: "R-MAPENCAPS: every write of a field of mapEntry/orderedMap/orderedMapIter and every access of their link fields lies in methods of those types (the tombstone/linked-list invariants are then local to map.go); size is +1 only on the insertion edge of set, -1 only on the found edge of remove, 0 only in clear. " +
